@@ -235,13 +235,14 @@ func (p *Pipe) copy(dir int, from, to net.Conn) {
 			}
 			p.mu.Unlock()
 			if allowed > 0 {
+				// counted before it is written: whoever sees the effect of these bytes also sees the count
+				p.mu.Lock()
+				p.cnt[dir] += allowed
+				p.mu.Unlock()
 				if _, werr := to.Write(buf[:allowed]); werr != nil {
 					p.kill("", false)
 					return
 				}
-				p.mu.Lock()
-				p.cnt[dir] += allowed
-				p.mu.Unlock()
 			}
 			if hit {
 				p.mu.Lock()
@@ -370,6 +371,21 @@ func (p *Pipe) ClientAddr() string { return p.cli.RemoteAddr().String() }
 
 // N is the attempt number of this connection.
 func (p *Pipe) N() int { return p.n }
+
+// KillAll kills every live forwarded connection (the forwarder keeps accepting).
+func (f *Forwarder) KillAll() {
+	f.mu.Lock()
+	ps := append([]*Pipe(nil), f.pipes...)
+	late := f.late
+	f.late = nil
+	f.mu.Unlock()
+	for _, p := range ps {
+		p.kill("", false)
+	}
+	for _, c := range late {
+		c.Close()
+	}
+}
 
 // Down closes the listening socket so that dialing is refused by the kernel (ECONNREFUSED). The port
 // stays reserved by a bound, non-listening placeholder socket. Attempts made while down are not
